@@ -56,6 +56,9 @@ type Plan struct {
 	CloseFault int `json:"close_fault,omitempty"`
 	// FinalClose2: the final Close is issued by two goroutines at once.
 	FinalClose2 bool `json:"final_close2,omitempty"`
+	// FinalTunFail: before the final Close the TUN device reports a fatal read error (the
+	// interface deleted under a running device): the device must close itself.
+	FinalTunFail bool `json:"final_tunfail,omitempty"`
 	// Unsafe lifts the exclusion of the overlaps behind the listed lock-order findings
 	// (direct BindUpdate together with peer-set / private-key changes).  Never set by the
 	// random generator of the check; used by the dedicated F3 family runs only.
@@ -85,6 +88,8 @@ func genPlan(seed int64, round int, callers, opsPer int) Plan {
 		p.CloseFault = 1 + r.Intn(2)
 	}
 	p.FinalClose2 = r.Intn(2) == 0
+	tunFailMid := r.Intn(4) == 0 // the mid-plan closer does not call Close: the TUN read fails fatally instead
+	p.FinalTunFail = r.Intn(6) == 0
 	for c := 0; c < callers; c++ {
 		var ops []PlanOp
 		n := opsPer/2 + r.Intn(opsPer)
@@ -94,7 +99,9 @@ func genPlan(seed int64, round int, callers, opsPer int) Plan {
 		}
 		for i := 0; i < n; i++ {
 			if i == closeAt {
-				if closeTwice && c == closer {
+				if tunFailMid && c == closer {
+					ops = append(ops, PlanOp{K: "tunfail"})
+				} else if closeTwice && c == closer {
 					ops = append(ops, PlanOp{K: "close2", A: r.Intn(300)})
 				} else {
 					ops = append(ops, PlanOp{K: "close"})
@@ -219,6 +226,7 @@ type round struct {
 	keyMu    sync.Mutex
 	downExcl sync.RWMutex // Down (RLock) never overlaps a private_key set (Lock): listed finding "down vs setprivatekey vs rekey"
 	tunMu    sync.RWMutex // sim.Tun.Event must not race with sim.Tun.Close (harness objects)
+	tunDead  atomic.Bool  // a fatal TUN read error has been injected: no more sim.Tun.Event (the device closes the TUN by itself)
 	curKey   ref.Key
 	keyGen   atomic.Int64
 	stop     atomic.Bool
@@ -279,7 +287,7 @@ func (r *round) exec(caller int, op PlanOp) {
 		inv, ret = evInvUp, evRetUp
 	case "down":
 		inv, ret = evInvDown, evRetDown
-	case "close":
+	case "close", "tunfail":
 		inv, ret = evInvClose, evRetClose
 	case "set_add", "set_keepalive", "set_endpoint", "set_replace_peers":
 		inv, ret = evInvPeerCfg, evRetPeerCfg
@@ -345,6 +353,15 @@ func (r *round) exec(caller int, op PlanOp) {
 		dev.Close()
 		r.closed.Store(true)
 		r.tunMu.RUnlock()
+	case "tunfail":
+		// fatal TUN read error: RoutineReadFromTUN starts Close by itself; the "call" lasts
+		// until device.Wait() fires (close(device.closed) is the last step of Close)
+		r.tunMu.Lock()
+		r.tunDead.Store(true)
+		r.tunMu.Unlock()
+		r.w.Tun.FailRead(errors.New("file descriptor in bad state"))
+		<-dev.Wait()
+		r.closed.Store(true)
 	case "set_slow":
 		pr, pw := io.Pipe()
 		go func() {
@@ -400,14 +417,14 @@ func (r *round) exec(caller int, op PlanOp) {
 	case "mtu":
 		r.w.Tun.SetMTU(op.A)
 		r.tunMu.Lock()
-		if !r.closed.Load() {
+		if !r.closed.Load() && !r.tunDead.Load() {
 			r.w.Tun.Event(tun.EventMTUUpdate)
 		}
 		r.tunMu.Unlock()
 	}
 	r.end(caller, id, ret)
-	if op.K == "down" || op.K == "close" {
-		r.observePeers(id, op.A == forceScan)
+	if op.K == "down" || op.K == "close" || op.K == "tunfail" {
+		r.observePeers(id, op.A == forceScan || op.K == "tunfail")
 	}
 	r.count("op_"+op.K, 1)
 	if err != nil {
@@ -737,6 +754,11 @@ func runRound(plan Plan, outDir string, hangLimit time.Duration) Case {
 		r.exec(-1, PlanOp{K: "up"})
 		fault(true)
 		r.count("close_fault_close", 1)
+	}
+	if plan.FinalTunFail && !r.closed.Load() {
+		// the device closes itself on a fatal TUN read error; the explicit Close afterwards is a no-op
+		r.exec(-1, PlanOp{K: "tunfail"})
+		r.count("final_tunfail", 1)
 	}
 	if plan.FinalClose2 {
 		r.exec(-1, PlanOp{K: "close2", A: 50})
